@@ -385,8 +385,24 @@ def ob_forward(run, oid):
         o.check(ok, "Turbine::forward_shred|tree-of-this-shred", "the tree is the one for (shred.slot, shred.index_in_slot())", gt[0].span if gt else b.span)
 
 
+def ob_leader_sends_to_root_only(run, oid):
+    """Turbine: the leader hands a shred to the root of its tree - once - and to nobody else; everyone else gets it down the tree"""
+    prog = run.program("lib")
+    o = run.ob(oid, "Turbine::send_shred_to_root performs exactly one network send (to the tree's root) and forwards to nobody",
+               "'exactly once under Turbine': the leader is itself a node of the tree and will forward the shred when it comes down to it; if it also serves its children when "
+               "sending, they receive every shred twice", floor=1)
+    fam = prog.family(A + "disseminator::turbine::Turbine::send_shred_to_root")
+    if not fam:
+        o.missing("Turbine::send_shred_to_root")
+        return o
+    sends = [c for b in fam for c in b.calls() if c.name.rsplit("::", 1)[-1] in ("send", "send_to_many", "forward", "forward_shred", "broadcast") and "{closure" not in c.name and ("Network" in c.name or "Turbine" in c.name or "network" in c.name)]
+    o.check(len(sends) == 1 and sends[0].name.rsplit("::", 1)[-1] == "send", "send_shred_to_root|one-send", "one Network::send, nothing else leaves the node here", fam[0].span, {"calls": [c.name[-50:] for c in sends]})
+    return o
+
+
 def check(run):
     ob_batched_send(run, "O16.8")
+    ob_leader_sends_to_root_only(run, "O16.9")
     from . import detectors as _DS
     _DS.ob_structural_impls(run, "O16.7", ['disseminator::', 'types::'], 'cache keys and relay comparisons use the derived equality / order of slots and indices')
     from . import detectors as _DL
